@@ -541,8 +541,8 @@ def run_tuner_suite(ctx):
         meta = {"mode": "inline", "dir": d, "n_trials": n, "table": rows, "grid": {"p": list(range(len(rows)))}}
         ctx.case((S_TUNER, d, n, repr(rows)), nontrivial=len(rows) > 1, kind=f"tuner:inline:{d}:n{n}")
         bi = oracle(ctx, o, rows, meta)
-        if "raised" in o or "rows" not in o:
-            continue
+        if bi is None or "raised" in o or "rows" not in o:
+            continue                          # a structural failure is already reported with this table as its failing input; its (possibly NaN) cells are not a model input
         reqs.append(select_request(o))
         keep.append((o, rows, meta))
     ans = run_driver_parallel(reqs)
@@ -558,8 +558,7 @@ def run_tuner_suite(ctx):
         meta = {"mode": "process-pool", "dir": d, "n_trials": n, "table": table, "grid": repr(g)}
         o = run_tuner(d, g, table, n, inline=False, do_resolve=True)
         ctx.case((S_TUNER, "pool", d, n, repr(g), repr(table)), nontrivial=len(table) > 1, kind=f"tuner:pool:{d}:n{n}")
-        oracle(ctx, o, table, meta)
-        if "raised" in o or "rows" not in o:
+        if oracle(ctx, o, table, meta) is None or "raised" in o or "rows" not in o:
             continue
         reqs += [select_request(o), execute_request(o)]
         keep.append((o, table, meta))
